@@ -388,3 +388,7 @@ mod tests {
         assert!(strings.iter().all(|x| x.is_none()))
     }
 }
+
+#[cfg(kani)]
+#[path = "/verif/kani/parquet/arrow/buffer/offset_buffer.rs"]
+mod verif_kani;
